@@ -151,21 +151,33 @@ Proof.
 Qed.
 
 (* ---------------- kill_tasks / cleanup ---------------- *)
-Lemma kill_sub ids r t : In t (fst (kill_tasks ids r)) -> In t r.
+(* every task of the result is a task of the argument, possibly with the kill-acknowledgement mark *)
+Lemma kill_spec ids r t' :
+  In t' (fst (kill_tasks ids r)) -> exists t, In t r /\ (t' = t \/ t' = set_kill 2 t).
 Proof.
   induction r as [|a r IH]; cbn [kill_tasks]; [cbn; tauto|].
   destruct (kill_tasks ids r) as [r'' k] eqn:E; cbn [fst] in IH.
-  destruct (mem_tid (t_id a) ids && negb (is_locked a)); cbn [fst In].
-  - intro H. right. apply IH, H.
-  - intros [<-|H]; [left; reflexivity|right; apply IH, H].
+  assert (Hrec : In t' r'' -> exists t, In t (a :: r) /\ (t' = t \/ t' = set_kill 2 t)).
+  { intro H. destruct (IH H) as [t [H1 H2]]. exists t. split; [right; exact H1|exact H2]. }
+  destruct (kill_selected ids a); [destruct (kill_refused a)|]; cbn [fst In].
+  - intros [<-|H]; [|apply Hrec, H]. exists a. split; [left; reflexivity|right; reflexivity].
+  - apply Hrec.
+  - intros [<-|H]; [|apply Hrec, H]. exists a. split; [left; reflexivity|left; reflexivity].
+Qed.
+
+Lemma kill_from ids r t' :
+  In t' (fst (kill_tasks ids r)) ->
+  exists t, In t r /\ t_id t = t_id t' /\ t_owner t = t_owner t' /\ t_active t = t_active t' /\ t_idok t = t_idok t'.
+Proof.
+  intro H. apply kill_spec in H. destruct H as [t [Ht [->| ->]]]; exists t; repeat split; auto.
 Qed.
 
 Lemma kill_keeps_locked ids r t : In t r -> is_locked t = true -> In t (fst (kill_tasks ids r)).
 Proof.
   induction r as [|a r IH]; cbn [kill_tasks In]; [tauto|].
   intros [->|Hin] Hl; destruct (kill_tasks ids r) as [r'' k] eqn:E; cbn [fst] in IH.
-  - rewrite Hl. cbn [negb]. rewrite andb_false_r. cbn. left. reflexivity.
-  - specialize (IH Hin Hl). destruct (mem_tid (t_id a) ids && negb (is_locked a)); cbn [fst In]; auto.
+  - unfold kill_selected. rewrite Hl. cbn [negb]. rewrite andb_false_r. cbn. left. reflexivity.
+  - specialize (IH Hin Hl). destruct (kill_selected ids a); [destruct (kill_refused a)|]; cbn [fst In]; auto.
 Qed.
 
 Lemma kill_keeps_unlisted ids r t :
@@ -173,23 +185,11 @@ Lemma kill_keeps_unlisted ids r t :
 Proof.
   induction r as [|a r IH]; cbn [kill_tasks In]; [tauto|].
   intros [->|Hin] Hm; destruct (kill_tasks ids r) as [r'' k] eqn:E; cbn [fst] in IH.
-  - rewrite Hm. cbn. left. reflexivity.
-  - specialize (IH Hin Hm). destruct (mem_tid (t_id a) ids && negb (is_locked a)); cbn [fst In]; auto.
+  - unfold kill_selected. rewrite Hm. cbn. left. reflexivity.
+  - specialize (IH Hin Hm). destruct (kill_selected ids a); [destruct (kill_refused a)|]; cbn [fst In]; auto.
 Qed.
 
-(* what remains and is listed is locked *)
-Lemma kill_rest_locked ids r t :
-  In t (fst (kill_tasks ids r)) -> mem_tid (t_id t) ids = true -> is_locked t = true.
-Proof.
-  induction r as [|a r IH]; cbn [kill_tasks]; [cbn; tauto|].
-  destruct (kill_tasks ids r) as [r'' k] eqn:E; cbn [fst] in IH.
-  destruct (mem_tid (t_id a) ids && negb (is_locked a)) eqn:C; cbn [fst In].
-  - apply IH.
-  - intros [<-|H] Hm; [|apply IH; assumption].
-    rewrite Hm in C. cbn in C. destruct (is_locked a); [reflexivity|discriminate].
-Qed.
-
-(* every KILL is for a listed, unlocked, active task of the roster *)
+(* every KILL is for a listed, unlocked task of the roster *)
 Lemma kill_kills ids r k :
   In k (snd (kill_tasks ids r)) ->
   exists t, In t r /\ t_id t = k /\ is_locked t = false /\ mem_tid k ids = true.
@@ -199,24 +199,43 @@ Proof.
   assert (Hrec : In k ks -> exists t, In t (a :: r) /\ t_id t = k /\ is_locked t = false /\
                                      mem_tid k ids = true).
   { intro H. destruct (IH H) as [t [H1 H2]]. exists t. split; [right; exact H1|exact H2]. }
-  destruct (mem_tid (t_id a) ids && negb (is_locked a)) eqn:C; cbn [snd]; [|exact Hrec].
+  destruct (kill_selected ids a) eqn:C; [destruct (kill_refused a)|]; cbn [snd]; try exact Hrec.
+  unfold kill_selected in C. apply andb_true_iff in C. destruct C as [C C3].
   apply andb_true_iff in C. destruct C as [C1 C2].
   intros [<-|H]; [|apply Hrec, H].
   exists a. split; [left; reflexivity|]. repeat split; auto.
   destruct (is_locked a); [discriminate|reflexivity].
 Qed.
 
-(* and every such task gets its KILL *)
+(* and every listed unlocked task gets its KILL, unless the master refuses it or an acknowledgement of
+   an earlier refused attempt is still registered *)
 Lemma kill_complete ids r t :
-  In t r -> mem_tid (t_id t) ids = true -> is_locked t = false ->
+  In t r -> mem_tid (t_id t) ids = true -> is_locked t = false -> kill_refused t = false -> t_kill t <> 2 ->
   In (t_id t) (snd (kill_tasks ids r)).
 Proof.
   induction r as [|a r IH]; cbn [kill_tasks In]; [tauto|].
-  intros [->|Hin] Hm Hl; destruct (kill_tasks ids r) as [r'' ks] eqn:E; cbn [snd] in IH.
-  - rewrite Hm, Hl. cbn. left. reflexivity.
-  - specialize (IH Hin Hm Hl).
-    destruct (mem_tid (t_id a) ids && negb (is_locked a)); cbn [snd]; [|exact IH].
-    right; exact IH.
+  intros [->|Hin] Hm Hl Hr H2; destruct (kill_tasks ids r) as [r'' ks] eqn:E; cbn [snd] in IH.
+  - unfold kill_selected. rewrite Hm, Hl, Hr. apply N.eqb_neq in H2. rewrite H2. cbn. left. reflexivity.
+  - specialize (IH Hin Hm Hl Hr H2).
+    destruct (kill_selected ids a); [destruct (kill_refused a)|]; cbn [snd]; auto. right. exact IH.
+Qed.
+
+(* what is not killed stays in the roster *)
+Lemma kill_or_stay ids r t :
+  In t r -> In (t_id t) (snd (kill_tasks ids r)) \/
+            exists t', In t' (fst (kill_tasks ids r)) /\ t_id t' = t_id t /\ t_owner t' = t_owner t.
+Proof.
+  induction r as [|a r IH]; cbn [kill_tasks In]; [tauto|].
+  destruct (kill_tasks ids r) as [r'' ks] eqn:E; cbn [fst snd] in IH.
+  intros [->|Hin].
+  - destruct (kill_selected ids t); [destruct (kill_refused t)|]; cbn [fst snd In].
+    + right. exists (set_kill 2 t). split; [left; reflexivity|split; reflexivity].
+    + left. left. reflexivity.
+    + right. exists t. split; [left; reflexivity|split; reflexivity].
+  - destruct (IH Hin) as [H|[t' [H1 H2]]].
+    + left. destruct (kill_selected ids a); [destruct (kill_refused a)|]; cbn [snd In]; auto.
+    + right. exists t'. split; [|exact H2].
+      destruct (kill_selected ids a); [destruct (kill_refused a)|]; cbn [fst In]; auto.
 Qed.
 
 Lemma kill_ids_nodup ids r : NoDup (map t_id r) -> NoDup (map t_id (fst (kill_tasks ids r))).
@@ -224,18 +243,22 @@ Proof.
   induction r as [|a r IH]; cbn [kill_tasks]; [cbn; auto|].
   intros H. inversion H as [|x l Hnin Hnd]; subst.
   destruct (kill_tasks ids r) as [r'' ks] eqn:E; cbn [fst] in IH.
-  destruct (mem_tid (t_id a) ids && negb (is_locked a)); cbn [fst map]; [apply IH, Hnd|].
-  constructor; [|apply IH, Hnd].
-  intro Hin. apply Hnin. apply in_map_iff in Hin. destruct Hin as [t [Et Ht]].
-  apply in_map_iff. exists t. split; [exact Et|].
-  assert (Hs : In t (fst (kill_tasks ids r))) by (rewrite E; exact Ht). apply kill_sub in Hs. exact Hs.
+  assert (Hn : ~ In (t_id a) (map t_id r'')).
+  { intro Hin. apply Hnin. apply in_map_iff in Hin. destruct Hin as [t [Et Ht]].
+    assert (Hs : In t (fst (kill_tasks ids r))) by (rewrite E; exact Ht).
+    apply kill_from in Hs. destruct Hs as [t0 [H0 [H1 _]]]. apply in_map_iff. exists t0. split; [congruence|exact H0]. }
+  destruct (kill_selected ids a); [destruct (kill_refused a)|]; cbn [fst map set_kill t_id].
+  - constructor; [exact Hn|apply IH, Hnd].
+  - apply IH, Hnd.
+  - constructor; [exact Hn|apply IH, Hnd].
 Qed.
 
 Lemma cleanup_sub r t : In t (fst (cleanup r)) -> In t r.
 Proof.
   induction r as [|a r IH]; cbn [cleanup]; [cbn; tauto|].
   destruct (cleanup r) as [r'' k] eqn:E; cbn [fst] in IH.
-  destruct (negb (is_locked a)); cbn [fst In].
+  destruct (negb (is_locked a)); [destruct (kill_refused a)|]; cbn [fst In].
+  - intros [<-|H]; [left; reflexivity|right; apply IH, H].
   - intro H. right. apply IH, H.
   - intros [<-|H]; [left; reflexivity|right; apply IH, H].
 Qed.
@@ -245,15 +268,7 @@ Proof.
   induction r as [|a r IH]; cbn [cleanup In]; [tauto|].
   intros [->|Hin] Hl; destruct (cleanup r) as [r'' k] eqn:E; cbn [fst] in IH.
   - rewrite Hl. cbn. left. reflexivity.
-  - specialize (IH Hin Hl). destruct (negb (is_locked a)); cbn [fst In]; auto.
-Qed.
-
-Lemma cleanup_rest_locked r t : In t (fst (cleanup r)) -> is_locked t = true.
-Proof.
-  induction r as [|a r IH]; cbn [cleanup]; [cbn; tauto|].
-  destruct (cleanup r) as [r'' k] eqn:E; cbn [fst] in IH.
-  destruct (negb (is_locked a)) eqn:C; cbn [fst In]; [apply IH|].
-  intros [<-|H]; [|apply IH, H]. destruct (is_locked a); [reflexivity|discriminate].
+  - specialize (IH Hin Hl). destruct (negb (is_locked a)); [destruct (kill_refused a)|]; cbn [fst In]; auto.
 Qed.
 
 Lemma cleanup_kills r k :
@@ -264,21 +279,20 @@ Proof.
   destruct (cleanup r) as [r'' ks] eqn:E; cbn [snd] in IH.
   assert (Hrec : In k ks -> exists t, In t (a :: r) /\ t_id t = k /\ is_locked t = false).
   { intro H. destruct (IH H) as [t [H1 H2]]. exists t. split; [right; exact H1|exact H2]. }
-  destruct (negb (is_locked a)) eqn:C; cbn [snd]; [|exact Hrec].
+  destruct (negb (is_locked a)) eqn:C; [destruct (kill_refused a)|]; cbn [snd]; try exact Hrec.
   intros [<-|H]; [|apply Hrec, H].
   exists a. split; [left; reflexivity|]. repeat split; auto.
   destruct (is_locked a); [discriminate|reflexivity].
 Qed.
 
 Lemma cleanup_complete r t :
-  In t r -> is_locked t = false -> In (t_id t) (snd (cleanup r)).
+  In t r -> is_locked t = false -> kill_refused t = false -> In (t_id t) (snd (cleanup r)).
 Proof.
   induction r as [|a r IH]; cbn [cleanup In]; [tauto|].
-  intros [->|Hin] Hl; destruct (cleanup r) as [r'' ks] eqn:E; cbn [snd] in IH.
-  - rewrite Hl. cbn. left. reflexivity.
-  - specialize (IH Hin Hl).
-    destruct (negb (is_locked a)); cbn [snd]; [|exact IH].
-    right; exact IH.
+  intros [->|Hin] Hl Hr; destruct (cleanup r) as [r'' ks] eqn:E; cbn [snd] in IH.
+  - rewrite Hl, Hr. cbn. left. reflexivity.
+  - specialize (IH Hin Hl Hr).
+    destruct (negb (is_locked a)); [destruct (kill_refused a)|]; cbn [snd]; auto. right; exact IH.
 Qed.
 
 Lemma cleanup_ids_nodup r : NoDup (map t_id r) -> NoDup (map t_id (fst (cleanup r))).
@@ -286,11 +300,14 @@ Proof.
   induction r as [|a r IH]; cbn [cleanup]; [cbn; auto|].
   intros H. inversion H as [|x l Hnin Hnd]; subst.
   destruct (cleanup r) as [r'' ks] eqn:E; cbn [fst] in IH.
-  destruct (negb (is_locked a)); cbn [fst map]; [apply IH, Hnd|].
-  constructor; [|apply IH, Hnd].
-  intro Hin. apply Hnin. apply in_map_iff in Hin. destruct Hin as [t [Et Ht]].
-  apply in_map_iff. exists t. split; [exact Et|].
-  assert (Hs : In t (fst (cleanup r))) by (rewrite E; exact Ht). apply cleanup_sub in Hs. exact Hs.
+  assert (Hn : ~ In (t_id a) (map t_id r'')).
+  { intro Hin. apply Hnin. apply in_map_iff in Hin. destruct Hin as [t [Et Ht]].
+    apply in_map_iff. exists t. split; [exact Et|].
+    assert (Hs : In t (fst (cleanup r))) by (rewrite E; exact Ht). apply cleanup_sub in Hs. exact Hs. }
+  destruct (negb (is_locked a)); [destruct (kill_refused a)|]; cbn [fst map].
+  - constructor; [exact Hn|apply IH, Hnd].
+  - apply IH, Hnd.
+  - constructor; [exact Hn|apply IH, Hnd].
 Qed.
 
 (* ---------------- command ---------------- *)
@@ -373,4 +390,18 @@ Lemma recon_tasks_id r : recon_tasks r = r.
 Proof.
   unfold recon_tasks. induction r as [|a r IH]; cbn [map]; [reflexivity|].
   rewrite recon_task_id, IH. reflexivity.
+Qed.
+
+(* ---------------- refuse_tasks ---------------- *)
+Lemma refuse_ids ids r : map t_id (refuse_tasks ids r) = map t_id r.
+Proof.
+  unfold refuse_tasks. rewrite map_map. apply map_ext. intro t.
+  destruct (mem_tid (t_id t) ids && N.eqb (t_kill t) 0); reflexivity.
+Qed.
+
+Lemma refuse_spec ids r t' :
+  In t' (refuse_tasks ids r) -> exists t, In t r /\ (t' = t \/ t' = set_kill 1 t).
+Proof.
+  unfold refuse_tasks. intro H. apply in_map_iff in H. destruct H as [t [Et Ht]].
+  exists t. split; [exact Ht|]. destruct (mem_tid (t_id t) ids && N.eqb (t_kill t) 0); [right|left]; symmetry; exact Et.
 Qed.
